@@ -33,7 +33,7 @@ ASSUMPTIONS = [
     "not) must read back as Unknown",
 ]
 REQUIRED = {"table.triples": 44982, "table.bondtypes": 15, "roundtrip.Molecule": 100, "roundtrip.Structure": 50,
-            "roundtrip.ConformerEnsemble": 50, "fixedpoint.text": 200, "bundled.files": 5,
+            "roundtrip.ConformerEnsemble": 50, "input.ensemble-with-zero-or-odd-weights": 20, "fixedpoint.text": 200, "bundled.files": 5,
             "read.again-after-editing-first-result": 50, "library-trip.type-tokens-compared": 40, "source.atoms-lent-to-another-structure": 20,
             "multi-record.texts": 150, "multi-record.elements-compared": 400, "rewrite-after-edit.compared": 200,
             "rewrite-after-edit.bond-type-edited": 40, "rewrite-after-edit.element-edited": 40,
@@ -395,6 +395,11 @@ def run_rand(spec, ctx):
             if q.size and rng.random() < 0.35:
                 special_charges(rng, q, ctx)
             x.atomic_charges = q
+            if rng.random() < 0.5:
+                # the conformer count and order are those of the object, whatever the weights say (populations that
+                # underflowed to zero, zero-initialised or unnormalised weights, NaN)
+                x.weights = np.array([rng.choice([0.0, 0.0, 1.0, 0.25, 1e-300, -1.0, float("nan")]) for _ in range(nc)])
+                ctx.count("input.ensemble-with-zero-or-odd-weights")
         else:
             x = ext_molecule(rng, cls, ctx)
         if not is_ens and x.n_atoms >= 2 and rng.random() < 0.2:
